@@ -1999,7 +1999,21 @@ impl OffsetConflict {
             Fold { before, after }
                 if is_equal(given, before) || is_equal(given, after) =>
             {
-                let kind = Unambiguous { offset: given };
+                // Use the offset from the time zone and not the one given.
+                // The notion of equality provided by the caller might be
+                // inexact (for example, offsets rounded to the nearest
+                // minute when parsing RFC 3339 timestamps), in which case,
+                // the given offset isn't necessarily the actual offset.
+                let offset = if given == before {
+                    before
+                } else if given == after {
+                    after
+                } else if is_equal(given, before) {
+                    before
+                } else {
+                    after
+                };
+                let kind = Unambiguous { offset };
                 AmbiguousTimestamp::new(dt, kind)
             }
             _ => amb,
@@ -2071,8 +2085,22 @@ impl OffsetConflict {
                     tzname = tz.diagnostic_name(),
                 ))
             }
-            Fold { .. } => {
-                let kind = Unambiguous { offset: given };
+            Fold { before, after } => {
+                // Use the offset from the time zone and not the one given.
+                // The notion of equality provided by the caller might be
+                // inexact (for example, offsets rounded to the nearest
+                // minute when parsing RFC 3339 timestamps), in which case,
+                // the given offset isn't necessarily the actual offset.
+                let offset = if given == before {
+                    before
+                } else if given == after {
+                    after
+                } else if is_equal(given, before) {
+                    before
+                } else {
+                    after
+                };
+                let kind = Unambiguous { offset };
                 Ok(AmbiguousTimestamp::new(dt, kind).into_ambiguous_zoned(tz))
             }
         }
